@@ -228,6 +228,18 @@ void op_exit(void *)
 const verif_sched_ops OPS = { op_lock, op_unlock, op_wait, op_broadcast, op_signal, op_create, op_join, op_exit };
 }
 
+// evaluate_descent pins worker j to CPU j. Under a forced schedule exactly one thread runs at a time, and a
+// pinned thread cannot migrate away from a busy CPU, which makes every hand-over wait for a time slice on a loaded
+// machine.  The harness executable therefore overrides sched_setaffinity: a no-op while a schedule is loaded,
+// the real system call otherwise (free-running runs keep the library's pinning).
+#include <sys/syscall.h>
+#include <sched.h>
+extern "C" int sched_setaffinity(pid_t pid, size_t sz, const cpu_set_t *mask) __THROW
+{
+	if (active) return 0;
+	return (int)syscall(SYS_sched_setaffinity, pid, sz, mask);
+}
+
 extern "C" const struct verif_sched_ops *verif_sched_active(void)
 {
 	return (active && my_tid >= 0) ? &OPS : nullptr;
